@@ -99,7 +99,12 @@ def _worker(prop, tier, seed, j, W, n, outpath, budget_s):
     digs = set()
     sigs = set()
     keep_digests = bool(os.environ.get("VERIF_DIGEST_OUT"))
+    # tools that only ask "is this (deliberately broken) tree detected?" may stop the batch at the first unexplained violation;
+    # never set by the registered quick / thorough commands
+    stop_path = os.path.join(os.path.dirname(outpath), "stop") if os.environ.get("VERIF_STOP_ON_VIOLATION") == "1" else None
     for i in range(j, n, W):
+        if stop_path and (i // W) % 4 == 0 and os.path.exists(stop_path):
+            break
         rng = R.run_rng(seed, prop.ID, i)
         try:
             plan = prop.gen(rng, i, tier)
@@ -141,6 +146,8 @@ def _worker(prop, tier, seed, j, W, n, outpath, budget_s):
                 continue
             seen_keys.add(k)
             agg["viol_counts"][k] = agg["viol_counts"].get(k, 0) + 1
+            if stop_path and v.get("cause") is None and not os.path.exists(stop_path):
+                open(stop_path, "w").close()
             lst = agg["viol_keep"].setdefault(k, [])
             if len(lst) < MAX_KEEP_PER_KEY and len(agg["viol_keep"]) <= MAX_KEYS:
                 lst.append({"run_index": i, "plan": plan, "violation": v, "digest": res.get("digest")})
